@@ -686,6 +686,45 @@ pub fn value_j<'tcx>(tcx: TyCtxt<'tcx>, v: ConstValue, ty: Ty<'tcx>, o: &mut J) 
 						}
 					}
 				}
+				if let ty::Adt(adt, adt_args) = inner.kind() {
+					if adt.is_struct() {
+						let (prov, off) = ptr.into_raw_parts();
+						if let Some(rustc_middle::mir::interpret::GlobalAlloc::Memory(alloc)) =
+							tcx.try_get_global_alloc(prov.alloc_id())
+						{
+							let a = alloc.inner();
+							let start = off.bytes_usize();
+							let tenv = TypingEnv::fully_monomorphized();
+							if let Ok(layout) = tcx.layout_of(tenv.as_query_input(*inner)) {
+								let mut fields = J::obj();
+								let mut okf = a.provenance().ptrs().is_empty();
+								for (i, f) in adt.non_enum_variant().fields.iter().enumerate() {
+									let fty = f.ty(tcx, adt_args);
+									let foff = start + layout.fields.offset(i).bytes_usize();
+									let fsz = match fty.kind() {
+										ty::Int(_) | ty::Uint(_) | ty::Bool | ty::Char => {
+											tcx.layout_of(tenv.as_query_input(fty)).map(|l| l.size.bytes_usize()).unwrap_or(0)
+										}
+										_ => 0,
+									};
+									if fsz == 0 || foff + fsz > a.len() {
+										okf = false;
+										continue;
+									}
+									let bytes = a.inspect_with_uninit_and_ptr_outside_interpreter(foff..foff + fsz);
+									let mut v: u128 = 0;
+									for (k, b) in bytes.iter().enumerate() {
+										v |= (*b as u128) << (8 * k);
+									}
+									fields.put(&f.name.to_string(), J::Int(v as i128));
+								}
+								o.put("ref_struct", J::s(path(tcx, adt.did())));
+								o.put("ref_fields", fields);
+								o.put("ref_fields_complete", J::Bool(okf));
+							}
+						}
+					}
+				}
 				if is_bytes {
 					let (prov, off) = ptr.into_raw_parts();
 					if let Some(rustc_middle::mir::interpret::GlobalAlloc::Memory(alloc)) =
